@@ -31,7 +31,13 @@
   `c08_wire_anyvalue`, `c08_wire_pollrequest`), and end to end from the snapshot (`c08_survives_serialisation`).
   The model's bytes are compared with the real runtime's on every generated case (both directions).  Trusted: that
   the RECEIVING runtime parses as the model's decoder does (exercised with the local upb runtime only).
-  `FloatsAre64Bit` (`s.floatsOk`) is a typing condition of the model, which carries a float's bit pattern as a `Nat`.
+  `FloatsAre64Bit` (`s.floatsOk`) is a typing condition of the model, which carries a float's bit pattern as a `Nat`
+  (`c08_double_needs_64_bits_witness`: a 65-bit "pattern" does not survive the 8-byte field).
+  Auth: the statement says every request "carries the metadata supplied by the configured auth provider" — it does
+  not say what a provider must supply.  `BasicAuthProvider` supplies `Basic%20<base64>` (a literal "%20" where RFC 7617
+  has a space): proved to be exactly that and to carry the credentials (`c08_basic_auth_header`), documented in
+  notes/probes/c08_basic_auth_percent20.py, NOT a violation of C08.  A provider class that cannot be loaded makes
+  every operation raise: nothing is sent, nothing is cached (`c08_auth_unloadable_sends_nothing`).
 -/
 import DeepModel.Proofs.WireSent
 import DeepModel.Proofs.WireB64
@@ -138,6 +144,36 @@ theorem c08_completed_in_range (now ts : Int) (hn : inU64 now = true) (ht : inU6
   unfold completeDuration
   omega
 
+/-! ### the tracepoint's line number (method tracepoints have none) -/
+
+/-- **every tracepoint a location can produce converts**: a location's line is a source line (≥ 0, uint32) or
+    `FunctionLocation.line` = -1 for a METHOD tracepoint; the line number the TracePointConfig then reports (constructor
+    and `line_no` property as translated from the source) always fits the uint32 `line_number` field — a method
+    tracepoint is reported with line 0 — and a real line is reported unchanged -/
+theorem c08_tracepoint_line_converts (l : Int) (LocationLine : -1 ≤ l ∧ l < 2 ^ 32) :
+    inU32 (configuredLineNo l) = true ∧ (0 ≤ l → configuredLineNo l = l) ∧
+    inU32 (configuredLineNo functionLocationLine) = true := by
+  refine ⟨?_, ?_, by decide⟩
+  · by_cases hn : l < 0
+    · have : l = -1 := by omega
+      subst this; decide
+    · simp [configuredLineNo, tracepointLineNo, tracepointStoredLine, inU32, hn]
+      omega
+  · intro h
+    have hn : ¬ l < 0 := by omega
+    simp [configuredLineNo, tracepointLineNo, tracepointStoredLine, hn]
+
+/-- …so protobuf takes the converted config of every method tracepoint with well-formed text -/
+theorem c08_method_tracepoint_converts (tp : TracePointConfig) (WellFormedText : tp.textOk = true) :
+    (convertTracepoint { tp with line_no := configuredLineNo functionLocationLine }).accepts = true :=
+  accepts_tracepoint (t := { tp with line_no := configuredLineNo functionLocationLine }) WellFormedText
+    (by show inU32 (configuredLineNo functionLocationLine) = true; decide)
+
+/-- tripwire: the line handed to `TracePointConfig(...)` is the location's, and a function location's line is not a
+    source line (negative: "no line") -/
+theorem c08_tracepoint_line_source :
+    tracepointLineSource = "self.__location.line" ∧ functionLocationLine < 0 := by decide
+
 /-! ### round trip -/
 
 /-- **whatever is sent is the snapshot**: if a message is produced at all, reading it back gives every field of the
@@ -197,6 +233,14 @@ theorem c08_surrogate_dropped_witness :
 theorem c08_big_int_dropped_witness :
     let s := witness (.int (2 ^ 70)) (Text.ofString "fn")
     s.collectable = true ∧ s.textOk = true ∧ s.intsFit = false ∧ convertSnapshot s = none := by
+  decide
+
+/-- the clamp is needed: a TracePointConfig that reported the location's line of a method tracepoint AS IT IS (-1)
+    gives a snapshot outside `collectable` that is DROPPED — the uint32 field refuses it -/
+theorem c08_unclamped_method_line_dropped_witness :
+    let s0 := witness (.bool true) (Text.ofString "fn")
+    let s := { s0 with tracepoint := { s0.tracepoint with line_no := functionLocationLine } }
+    s.textOk = true ∧ s.intsFit = true ∧ s.collectable = false ∧ convertSnapshot s = none := by
   decide
 
 /-- **oneof** — a watch carries its result XOR its error, whichever it has, and its source -/
@@ -306,6 +350,19 @@ theorem c08_survives_serialisation (s : EventSnapshot) (Collectable : s.collecta
     simp [project_snapshot Collectable]
   · cases h
 
+/-- `DoublesAre64Bit` / `FloatsAre64Bit` is needed: the "pattern" 2^64 (65 bits) is written into the 8-byte field as
+    zeros and reads back as the pattern 0; a genuine pattern (0.5) is read back as itself, from exactly these bytes -/
+theorem c08_double_needs_64_bits_witness :
+    (PAnyValue.double_value (2 ^ 64)).accepts = true ∧ (PAnyValue.double_value (2 ^ 64)).bitsOk = false ∧
+    (match decAny (encRecs (encAny (.double_value (2 ^ 64)))) with
+     | some (.double_value 0) => true
+     | _ => false) = true ∧
+    encRecs (encAny (.double_value 0x3FE0000000000000)) = [0x21, 0, 0, 0, 0, 0, 0, 0xE0, 0x3F] ∧
+    (match decAny [0x21, 0, 0, 0, 0, 0, 0, 0xE0, 0x3F] with
+     | some (.double_value 0x3FE0000000000000) => true
+     | _ => false) = true := by
+  decide
+
 /-- non-vacuity: the witness snapshot with a nested tuple attribute and a float satisfies every hypothesis of
     `c08_survives_serialisation` and IS converted, so the theorem speaks about its bytes -/
 theorem c08_survives_nonvacuous :
@@ -403,6 +460,21 @@ theorem c08_auth_fault_not_cached (c : AuthCfg) (faults : Nat → Bool) (g : Grp
     · simp [hf, h]
     · simp [hf] at hraise
 
+/-- **a provider class that cannot be loaded** (`AuthProvider.get_provider` raises: no dot in the name — ValueError,
+    unknown module — ModuleNotFoundError, unknown attribute — AttributeError, not instantiable — TypeError; none of
+    the loading statements is guarded): for every such configuration and every sequence of polls and pushes NOTHING is
+    sent — no request ever goes out without the configured provider's metadata — and nothing is cached -/
+theorem c08_auth_unloadable_sends_nothing (c : AuthCfg) (ProviderConfigured : noProvider c.providerName = false)
+    (ops : List Op) : ∀ w ∈ run c (fun _ => true) ⟨none, 0⟩ ops, w.metadata = none :=
+  run_unloadable c ProviderConfigured ⟨by decide, by decide⟩ ops ⟨none, 0⟩ rfl
+
+/-- tripwire: how `get_provider` loads the class (the documented `UnknownAuthProvider` is raised only in a branch that
+    `getattr` never reaches: it raises AttributeError itself) -/
+theorem c08_get_provider_load :
+    getProviderLoad = ["module, cls = provider.rsplit('.', 1)", "provider_class = getattr(import_module(module), cls)",
+                       "if provider_class is None:", "return provider_class(config)"] := by
+  decide
+
 /-- **any number of threads** at `metadata()` (poll timer, task pool), any schedule of their two atomic regions:
     every request is sent with the provider's metadata — no thread ever sees a placeholder -/
 theorem c08_auth_concurrent (c : AuthCfg) (n : Nat) (sched : List Nat) :
@@ -417,6 +489,15 @@ example :
                    .push (witness (.bool true) [0xDC00])]).map Wire.metadata
       = [some (some [("authorization", "Bearer t"), ("x-org", "7")]),
          some (some [("authorization", "Bearer t"), ("x-org", "7")]), none] := by
+  decide
+
+/-- non-vacuity: with a provider name that cannot be loaded a poll and a push send nothing, while the same operations
+    with no provider configured go out (with empty metadata) -/
+example :
+    let bad : AuthCfg := ⟨some "deep.api.auth.Missing", .custom [], none, none⟩
+    let ops : List Op := [.poll 1 [] ⟨[], 0⟩, .push (witness (.bool true) (Text.ofString "fn"))]
+    (run bad (fun _ => true) ⟨none, 0⟩ ops).map Wire.metadata = [none, none] ∧
+    (run ⟨none, .basic, none, none⟩ (fun _ => true) ⟨none, 0⟩ ops).map Wire.metadata = [some (some []), some (some [])] := by
   decide
 
 /-- basic auth without a password supplies no metadata — and the requests still carry the (empty) metadata argument -/
